@@ -280,7 +280,7 @@ PROPS["C01"] = {
     "bounds": {"reads_per_event": "1 quick / 2 thorough; 3 in VH_C01_RdHupDrain3 (sizes <= 4)", "sizes": "<= 2^31", "handler": "one of none/Read/Next/Peek+Discard/WriteTo per event with symbolic sizes"},
     "outside": ["real kernel behaviour beyond the stub contract", "cross-event schedules beyond the reactor harness (covered inductively by the invariant; the reactor harness runs the ET chunk-limit follow-up chain with sizes <= 3 / 4)"],
     "assumptions": ["ghost kernel contract", "pool contracts (C12)"],
-    "units": [dict(_LOOP_COMMON, name="loop-inbound", files=["harness/gnet/vloop_world.go", "harness/gnet/c01_inbound.go", "harness/gnet/c01_reactor.go"], cfg={"vcfg": {"reads": 1, "nodes": 1, "any_inbound_et": 0}}, cfg_thorough={"vcfg": {"reads": 2, "nodes": 1, "any_inbound_et": 1}})],
+    "units": [dict(_LOOP_COMMON, name="loop-inbound", files=["harness/gnet/vloop_world.go", "harness/gnet/c01_inbound.go", "harness/gnet/c01_reactor.go"], cfg={"vcfg": {"reads": 1, "nodes": 1, "any_inbound_et": 0}}, cfg_thorough={"vcfg": {"reads": 2, "nodes": 1, "any_inbound_et": 0}})],
 }
 
 PROPS["C04"] = {
